@@ -242,7 +242,7 @@ def pid_law_oracle(scn) -> core.CaseResult:
 
 @st.composite
 def cases(draw):
-    scn = draw(sim.scenario(dtypes=("f8", "f8", "f4")))
+    scn = draw(sim.scenario(dtypes=("f8", "f8", "f4"), stop_offsets=(0, 0, 17, 59)))
     scn["output"]["pack_age"] = draw(st.sampled_from([None, None, None, [0.25, -3.0], [0.5, 0.0]]))
     scn["output"]["pack_xy"] = draw(st.sampled_from([None, None, None, 0.01, 0.001]))
     return scn
